@@ -13,6 +13,18 @@ CLAIMED = {
              design="DESIGN.md 3/U2, 4/C13", technique="Verus function contracts + loop invariants on mechanically extracted real code"),
  "C15": dict(text="Verus: the call-site obligation fds.len() <= MAX_FDS_IN_CMSG at both send_first_fragment calls of the real OsIpcSender::send, and the postcondition 'more than 64 attachments => Err and nothing transmitted; Ok => all attachments in the first packet'.",
              design="DESIGN.md 3/U2, 4/C15", technique="Verus call-site preconditions and postcondition on extracted real code"),
+ "C01": dict(text="Unbounded deductive proof (Verus) on the extracted real bodies of OsIpcSender::send (+downsize, fragment arithmetic) and unix::recv against a ghost kernel model, plus a composition lemma: for every payload length, every SYSTEM_SENDBUF_SIZE >= 48, every split the sender chooses and every ENOBUFS pattern, what recv returns is byte-for-byte what send was given. bincode's own round trip, the in-process backend (crossbeam) and the macOS/Windows back ends (not compiled here) are outside.",
+             design="DESIGN.md 3/U2 U3 U23, 4/C01", technique="Verus contracts + loop invariants on extracted real send/recv; round-trip lemma over the two contracts"),
+ "C02": dict(text="The schedule quantifier is reduced to one stated kernel assumption (per-socket FIFO of whole packets); the library-side premises are proved unboundedly on the real code: one successful send = exactly one packet on the shared socket, all follow-ups on a socket created inside that call; a failed send adds at most that one packet; one recv consumes exactly one shared-socket packet and reads follow-ups only from the descriptor carried by that packet; lemma: a later send by anyone leaves a queued emission and the FIFO head intact (no mixing).",
+             design="DESIGN.md 3/U2 U3 U23, 4/C02", technique="Verus postconditions (frame over the ghost kernel) + composition lemmas"),
+ "C04": dict(text="Verus on the real code: descriptor order on the wire is channels, regions, dedicated receiver (send); recv splits by is_socket preserving order and removes exactly the dedicated one; OsOpaqueIpcChannel::{to_sender,to_receiver} move the descriptor out (slot := -1); lemma: the lists recv returns are the lists send was given. The ipc.rs index<->position layer is unit U7. That a passed descriptor denotes the same kernel object with its backlog is a kernel assumption.",
+             design="DESIGN.md 3/U2 U3 U7, 4/C04", technique="Verus loop invariants over an order-preserving split spec; composition lemma"),
+ "C12": dict(text="The crash-point quantifier becomes a universal over wire states: unix::recv is proved (Verus, unbounded) for a head packet followed by ANY prefix of its follow-ups: Ok only if the emission is complete and then with exactly hdr bytes all written by the kernel; a complete emission is never answered with ChannelClosed; reassembly terminates (EOF ends it). The obligation 'ChannelClosed only for EOF on the channel's own socket' fails on the current tree and is recorded as a known finding.",
+             design="DESIGN.md 3/U3, 4/C12, 5", technique="Verus precondition admitting every crash-prefix + postconditions on extracted real recv"),
+ "C18": dict(text="Verus on the real bodies: every slice/index in send, every Vec::set_len <= capacity, every control-buffer read inside the 64-descriptor buffer, no arithmetic overflow/underflow, both assert!s and pop().unwrap() in recv, CMSG_ALIGN arithmetic; set_len is specified to leave new bytes unspecified, so the proved equality of the result with the sender's bytes implies every byte was written by the transport. FFI-plumbing bodies (send_first_fragment's malloc/copy, UnixCmsg::new) are trusted stubs, listed in the evidence.",
+             design="DESIGN.md 3/U1 U2 U3, 4/C18", technique="Verus auto-obligations (overflow, bounds, unwrap, assert!) + std safety contracts as call-site preconditions"),
+ "C10": dict(text="Part of the property, proved on the real unix::recv (Verus): follow-up fragments are always read with flags == 0 (blocking) whatever the mode, so a started message is finished; with nothing queued recv returns Err and consumes nothing. The O_NONBLOCK set/clear discipline and poll timeout of UnixCmsg::recv are the Kani harnesses (K4) when present in the evidence.",
+             design="DESIGN.md 3/U3 U4, 4/C10", technique="Verus call-site precondition on the recv stub (flags) + postcondition"),
  "C09": dict(text="Verus, part of the property: on the real OsIpcSender::send every transmission failure that is not a recoverable ENOBUFS is returned as Err (ghost attempt log), a failed send leaves at most one packet on the shared socket, and the retry loop terminates for every error pattern. That the kernel reports EPIPE/ECONNRESET and raises no SIGPIPE is assumed.",
              design="DESIGN.md 3/U2, 4/C09", technique="Verus postconditions over a ghost transmission log"),
 }
